@@ -290,3 +290,53 @@ func H_C08_skip() {
 		vxrt.Assert(!strings.Contains(out, bulletSymbol+tn+" - 1\n"), "C08:entry-of-test-that-did-not-run-not-listed")
 	}
 }
+
+// H_C08_midskip: a test that records or replays its first snapshot and then skips itself through
+// a wrapper keeps its remaining entries (they are neither listed nor removed), and a skip
+// somewhere in the package does not hide genuinely stale files: a stale standalone file and a
+// stale custom-named file (neither has a test source of its own) are still reported and, in
+// clean mode, removed.
+func H_C08_midskip() {
+	vxrt.CI(false)
+	vxrt.EnvFixed("UPDATE_SNAPS", "clean")
+	vxrt.EnvFixed("NO_COLOR", "1")
+	vxrt.Flag("test.count", "1")
+	vxrt.Flag("test.run", "")
+	dir := vxrt.Dir() + "/__snapshots__"
+	path := dir + "/f_test.snap"
+	content := frame("TestM - 1", "one") + frame("TestM - 2", "two") + frame("TestG - 1", "g")
+	writeFile(path, content)
+	vxrt.TestSources(vxrt.Dir()+"/f_test.go", "TestM", "TestG", "TestK")
+	writeFile(dir+"/TestOld_1.snap", "stale standalone")
+	writeFile(dir+"/legacy.snap", frame("TestOld - 1", "stale custom-named"))
+	c := WithConfig(Dir(dir), Filename("f_test"), Update(false))
+	tm := newT("TestM")
+	c.MatchSnapshot(tm, "one")
+	midSkip := vxrt.Bool("TestM-skips-after-its-first-snapshot")
+	if midSkip {
+		switch vxrt.Choice("wrapper", 3) {
+		case 0:
+			Skip(tm, "not today")
+		case 1:
+			Skipf(tm, "not %s", "today")
+		default:
+			SkipNow(tm)
+		}
+	} else {
+		c.MatchSnapshot(tm, "two")
+	}
+	tm.end()
+	if vxrt.Bool("an-unrelated-test-skips") {
+		SkipNow(newT("TestK"))
+	}
+	tg := newT("TestG")
+	c.MatchSnapshot(tg, "g")
+	tg.end()
+	vxrt.Assert(len(tm.errors)+len(tg.errors) == 0, "setup:passes")
+	Clean(nil)
+	out := vxrt.Stdout()
+	vxrt.Assert(readFile(path) == content, "C08:entries-of-a-test-that-skipped-half-way-kept")
+	vxrt.Assert(!strings.Contains(out, bulletSymbol+"TestM - 2\n"), "C08:entries-of-a-test-that-skipped-half-way-not-listed")
+	vxrt.Assert(strings.Contains(out, "TestOld_1.snap\n") && readFile(dir+"/TestOld_1.snap") == "<missing>", "C09:stale-standalone-reported-and-removed-despite-a-skip")
+	vxrt.Assert(strings.Contains(out, "legacy.snap\n") && readFile(dir+"/legacy.snap") == "<missing>", "C09:stale-custom-named-file-reported-and-removed-despite-a-skip")
+}
